@@ -181,6 +181,24 @@ def job_hkl(job, seed):
     Rv = _mkmat(Rm, 'dimensionless', 'rotation3')
     if variant == 'array':
         Rv = V.Variable(_arr=Rv._a.reshape((1, 3, 3)).copy(), dims=('scan',), unit=Rv.unit, dtype=Rv.dtype)
+    if variant == 'grains':
+        # one orientation matrix per grain / twin / scan point: UB[g] = U[g].B for every g
+        Ums = [M(f'U{g}_') for g in range(2)]
+        ua = np.empty((2, 3, 3), dtype=object)
+        for g in range(2):
+            for i in range(3):
+                for j_ in range(3):
+                    ua[g, i, j_] = Ums[g][i][j_]
+        Ug = V.Variable(_arr=ua, dims=('grain',), unit=U.unit, dtype=U.dtype)
+        ubg = _single(C.explore(lambda: tof.ub_matrix_from_u_and_b(u_matrix=Ug, b_matrix=Bv)), obs, cands, 'ub', case)
+        if ubg is not None:
+            ok = C.B.const(ubg.dims == ('grain',) and ubg.unit == Bv.unit)
+            if ubg.dims == ('grain',):
+                for g in range(2):
+                    UBg = mm(Ums[g], Bm)
+                    ok = ok & C.all_of([ubg.values[g, i, j_] == UBg[i][j_] for i in range(3) for j_ in range(3)])
+            chk('UB[g] = U[g].B for an array of orientation matrices (entry-wise), unit of B', ok, sig='C08:ub')
+        return {'obligations': obs, 'candidates': cands, 'paths': 1}
     ub = _single(C.explore(lambda: tof.ub_matrix_from_u_and_b(u_matrix=U, b_matrix=Bv)), obs, cands, 'ub', case)
     if ub is None:
         return {'obligations': obs, 'candidates': cands, 'paths': 1}
@@ -307,7 +325,7 @@ def run(chk):
 
     chk.functions = loader.describe_exprs(['tof.Q_elements_from_wavelength', 'tof.Q_vec_from_Q_elements', 'tof.hkl_vec_from_Q_vec', 'tof.ub_matrix_from_u_and_b', 'tof.hkl_elements_from_hkl_vec', 'tof.Q_from_wavelength'], {**globals(), **locals()})
     run_jobs(chk, job_q, ['definition', 'units', 'rescale', 'rotation', 'definition:int64', 'definition:float32', 'units:int64'])
-    run_jobs(chk, job_hkl, ['scalar', 'array'])
+    run_jobs(chk, job_hkl, ['scalar', 'array', 'grains'])
     run_jobs(chk, job_inv_model, [0])
     run_jobs(chk, job_hkl_elements, [0])
     from . import shimval
@@ -351,6 +369,12 @@ def replay_real(case):
                                        b_matrix=sc.spatial.linear_transform(value=B, unit='1/angstrom'))
         if not np.allclose(ub.value, U @ B, rtol=1e-12, atol=1e-12):
             bad.append('UB != U.B')
+        # one orientation matrix per grain (array-valued u_matrix)
+        Us = [Rotation.random(random_state=rng.integers(1 << 30)) for _ in range(3)]
+        Uarr = sc.spatial.rotations_from_rotvecs(sc.vectors(dims=['grain'], values=[u_.as_rotvec() for u_ in Us], unit='rad'))
+        ubs = rt.ub_matrix_from_u_and_b(u_matrix=Uarr, b_matrix=sc.spatial.linear_transform(value=B, unit='1/angstrom'))
+        if ubs.dims != ('grain',) or any(not np.allclose(ubs.values[g_], u_.as_matrix() @ B, rtol=1e-12, atol=1e-12) for g_, u_ in enumerate(Us)):
+            bad.append(f'UB[g] != U[g].B for an array of {len(Us)} orientation matrices')
         Rv = sc.spatial.rotations_from_rotvecs(sc.vector(Rotation.from_matrix(R).as_rotvec(), unit='rad'))
         hkl = rt.hkl_vec_from_Q_vec(Q_vec=qv, ub_matrix=ub, sample_rotation=Rv)
         back = 2 * np.pi * R @ U @ B @ hkl.value
